@@ -490,8 +490,21 @@ func c02Load(cfg *c02Config, data c02DataSpec) (*c02World, error) {
 	tCols := []c02ColDef{{"id", cfg.keyType}, {"a", c02TInt}, {"b", c02TStr}, {"c", c02TDec2}, {"d", c02TBig}, {"e", c02TStr}, {"f", c02TDbl}, {"h", c02TStr}}
 	lKey := cfg.keyType
 	lKey.flag &^= c02FlagPriKey
-	lCols := []c02ColDef{{"id", lKey}, {"p", c02TInt}, {"q", c02TStr}}
-	gCols := []c02ColDef{{"gid", lKey}, {"h", c02TStr}, {"w", c02TInt}}
+	// tl and g also have a column named a like t (a join can select two columns of one
+	// name); its value is 7 minus the a of the row of t the key belongs to, so the two order
+	// in opposite directions
+	lCols := []c02ColDef{{"id", lKey}, {"p", c02TInt}, {"q", c02TStr}, {"a", c02TInt}}
+	gCols := []c02ColDef{{"gid", lKey}, {"h", c02TStr}, {"w", c02TInt}, {"a", c02TInt}}
+	mirrorA := func(of int) c02Val {
+		if of < 0 || of >= len(data.T) {
+			return c02NullV
+		}
+		v, err := c02ParseLit(data.T[of].V[0], c02TInt)
+		if err != nil || v.k == c02Null {
+			return c02NullV
+		}
+		return c02IntV(7 - v.i)
+	}
 	refT := w.store.table(c02RefSlice, cfg.db, "t", tCols)
 	refL := w.store.table(c02RefSlice, cfg.db, "tl", lCols)
 	refG := w.store.table(c02RefSlice, cfg.db, "g", gCols)
@@ -548,6 +561,7 @@ func c02Load(cfg *c02Config, data c02DataSpec) (*c02World, error) {
 			}
 			row = append(row, v)
 		}
+		row = append(row, mirrorA(r.Of))
 		ph[ordOf[r.Of]].l.rows = append(ph[ordOf[r.Of]].l.rows, row)
 		refL.rows = append(refL.rows, row)
 	}
@@ -571,6 +585,7 @@ func c02Load(cfg *c02Config, data c02DataSpec) (*c02World, error) {
 			}
 			row = append(row, v)
 		}
+		row = append(row, mirrorA(r.Of))
 		refG.rows = append(refG.rows, row)
 		done := map[*c02Table]bool{}
 		for o := range ph {
@@ -595,7 +610,7 @@ var c02Atoms = []string{
 	// FROM
 	"JOIN_LINKED", "LEFT_JOIN_LINKED", "JOIN_GLOBAL", "TBL_ALIAS", "QUALIFIED",
 	// plain projection
-	"PROJ_STAR", "PROJ_STR", "PROJ_STR_PAIR", "PROJ_NUMS", "COL_ALIAS",
+	"PROJ_STAR", "PROJ_STR", "PROJ_STR_PAIR", "PROJ_NUMS", "PROJ_SAME_NAME", "COL_ALIAS",
 	// WHERE
 	"W_NONKEY", "W_MIXED", "W_EMPTY", "W_KEY_EQ", "W_KEY_IN", "W_KEY_RANGE",
 	// aggregates
@@ -622,7 +637,7 @@ var c02AtomIndex = func() map[string]int {
 var c02Slots = [][]string{
 	{"RULE_RANGE", "RULE_DATE", "RULE_MYCAT"},
 	{"JOIN_LINKED", "LEFT_JOIN_LINKED", "JOIN_GLOBAL"},
-	{"PROJ_STAR", "PROJ_STR", "PROJ_STR_PAIR", "PROJ_NUMS"},
+	{"PROJ_STAR", "PROJ_STR", "PROJ_STR_PAIR", "PROJ_NUMS", "PROJ_SAME_NAME"},
 	{"W_KEY_EQ", "W_KEY_IN", "W_KEY_RANGE"},
 	{"ARG_DEC", "ARG_STR", "ARG_FLT", "ARG_NEG"},
 	{"ORDER_BY_COL", "ORDER_BY_HIDDEN", "ORDER_BY_ALIAS", "ORDER_BY_POS", "ORDER_BY_AGG"},
@@ -851,12 +866,18 @@ func c02BuildSQL(s c02Shape, cfg *c02Config) (string, bool) {
 	var items []c02Item
 	star := false
 	var orderKeys []string // ORDER BY expressions (first key gets DESC)
+	var extraGroup []string
 
 	if grouped {
 		if !s.has("GROUP_HIDDEN") {
 			for _, g := range gcols {
 				items = append(items, col(g))
 			}
+		}
+		if s.has("PROJ_SAME_NAME") && join != "" && !s.has("GROUP_HIDDEN") && len(gcols) > 0 && gcols[0] == "a" {
+			// group on a of t and on a of the joined table: two selected columns of one name
+			items = append(items, c02Item{expr: jq + "a", col: "a"})
+			extraGroup = append(extraGroup, jq+"a")
 		}
 		if s.has("COL_ALIAS") && len(items) > 0 {
 			items[0].alias = "x_" + items[0].col
@@ -906,7 +927,13 @@ func c02BuildSQL(s c02Shape, cfg *c02Config) (string, bool) {
 			}
 		}
 	} else {
-		switch s.first("PROJ_STAR", "PROJ_STR", "PROJ_STR_PAIR", "PROJ_NUMS") {
+		switch s.first("PROJ_STAR", "PROJ_STR", "PROJ_STR_PAIR", "PROJ_NUMS", "PROJ_SAME_NAME") {
+		case "PROJ_SAME_NAME":
+			// two table-qualified columns of one name: a of t and a of the joined table
+			if join == "" {
+				return "", false
+			}
+			items = []c02Item{col("a"), {expr: jq + "a", col: "a"}, col("d")}
 		case "PROJ_STAR":
 			star = true
 		case "PROJ_STR":
@@ -1044,6 +1071,7 @@ func c02BuildSQL(s c02Shape, cfg *c02Config) (string, bool) {
 		for i, c := range gcols {
 			g[i] = tq + c
 		}
+		g = append(g, extraGroup...)
 		tail += " GROUP BY " + strings.Join(g, ", ")
 	}
 	where := func(extra string) string {
